@@ -275,7 +275,12 @@ class TaskCoordinator:
                         runner.stop()
                         # Process completed tasks one last time after
                         # tasks have been killed.
-                        process_completed_tasks()
+                        try:
+                            process_completed_tasks()
+                        except LabError:
+                            # As above: report the interrupt, not a
+                            # task failure noticed while stopping.
+                            pass
                         raise
                     else:
                         raise first_keyboard_interrupt
